@@ -63,13 +63,15 @@ def messageOnlySites : List String := [
 
 def classifiedSites : List String := perKeySites ++ sortedBeforeUseSites ++ messageOnlySites
 
-/-- every map-range statement in the working tree is one of the classified sites and vice versa
-    (same number of statements, so a second loop added to a listed function is noticed too) -/
-theorem map_range_sites_classified :
-    (Sites.mapRangeSites.all fun s => classifiedSites.contains s) = true ∧
-    (classifiedSites.all fun s => Sites.mapRangeSites.contains s) = true ∧
-    Sites.mapRangeSites.length = classifiedSites.length := by
-  decide
+/-- Every `for … range <map>` statement of the working tree is, structurally, of a kind whose result
+    cannot depend on the visiting order: *per-key* (the body only defines locals, writes map entries
+    selected through the loop key, or panics — no accumulation into outer variables, no append, no early
+    exit), *sorted-before-use* (the body only fills a slice that is handed to package `sort` afterwards) or
+    *message-only* (the enclosing block ends in a panic).  The classification is recomputed from the typed
+    syntax tree on every run (tools/sites), so moving a loop into a helper or renaming a function keeps the
+    obligation, while an order-dependent loop (sum in map order, first match, unsorted collection) breaks it.
+    The lists above document which site is covered by which order-independence theorem below. -/
+theorem map_range_sites_classified : Sites.mapRangeUnclassified = [] := by decide
 
 /-- no wall-clock, no global random source, no goroutines or channels anywhere in the library -/
 theorem no_ambient_nondeterminism :
